@@ -434,6 +434,11 @@ func (x *Exec) checkPost(st *State, fn *ssa.Function, c *Contract, entry map[str
 		ctx.vars["final_"+k] = st.load(a)
 	}
 	bindResults(ctx, fn.Signature, res)
+	if x.prune && c.PruneReturns && len(res) > 0 && isErrorType(res[len(res)-1].Ty) && res[len(res)-1].T != "(mk_iface 0 0)" && !x.feasibleWithin(st, 15) {
+		// a return path that the branch-time pruning (1-2 s) could not refute but a longer attempt can: it is infeasible,
+		// so its postconditions hold vacuously - one query instead of one per clause
+		return
+	}
 	for i, en := range c.Ensures {
 		t, err := x.evalClause(st, ctx, en)
 		if err != nil {
